@@ -15,6 +15,7 @@ void hx_final(void);           /* oracle evaluated at quiescence (all threads fi
 
 /* ---- provided by schedx ---- */
 void sch_yield(void);                      /* explicit scheduling point inside harness code (task bodies) */
+void sch_pass(void);                       /* fair yield inside a polling loop: other runnable threads go first, at no preemption cost */
 __attribute__((format(printf, 3, 4), noreturn))
 void sch_fail(const char *rule, const char *sig, const char *fmt, ...);
 void sch_obs(uint64_t v);                  /* fold an observation into this execution's outcome hash */
